@@ -1,6 +1,7 @@
 import Noodles.Basic.Wire
 import Noodles.Cram.IndexModel
 import Noodles.Cram.DriverC19More
+import Noodles.Cram.DriverC19Async
 /-! Line-protocol handler for the CRAM index / query model (`c19 …`).
 
     c19 layout <rps> <spc> <recs>                  → per container `ctx#n/ctx#n+ctx#n|…` or err:invalid-input
@@ -77,6 +78,7 @@ def handleC19 : List String → String
       | some rs => s!"recs={fmtIds (rs.map (·.id))}"
       | none => "err:other"
     | _, _, _, _ => "bad-op"
+  | "async" :: rest => handleC19Async rest
   | ws => handleC19More ws
 
 end Noodles.Cram.Index
